@@ -22,6 +22,16 @@ CHECKS = {
         technique="Coq proof (mutual induction over a statement language, frame invariant) + differential correspondence vs CPython execution"),
 }
 
+CHECKS["C04"] = dict(
+    text=("Theorems over the regenerated particle tables (every name of the EvtGen and PDG tables, by kernel computation "
+          "lifted with forallb_forall): self-conjugate -> itself, else the name with the negated PDG ID and involution, "
+          "else wrapped; unbounded: unknown labels are wrapped, conjugation is injective on all strings, final-state "
+          "conjugation preserves each multiplicity / the particle count / well-formedness for any final state, mode "
+          "conjugation preserves bf and all metadata. Tie: translator + exhaustive correspondence over both tables, "
+          "random final states / modes with metadata."),
+    design="DESIGN.md §5 C04",
+    technique="Coq proof (computation over regenerated finite tables + structural induction) + exhaustive differential correspondence")
+
 NOT_YET = {
 }
 
